@@ -1,13 +1,56 @@
 import RtenVerif.Driver.Util
 import RtenVerif.Model.Overlap
+import RtenVerif.Model.Layout
 
 namespace RtenVerif.Driver.C08
-open RtenVerif.Driver RtenVerif.Overlap
+open RtenVerif.Driver RtenVerif.Overlap RtenVerif.Layout RtenVerif.Arr
 
 def parseDim (w : String) : Option (Nat × Nat) :=
   match w.splitOn "," with
   | [a, b] => do let x ← a.toNat?; let y ← b.toNat?; pure (x, y)
   | _ => none
+
+/-! `dv <shape|-> | <op> | <op> …`: a contiguous view of `shape` pushed through the layout
+model of C09 (`Model/Layout.lean`), the operations `Props/C08Views.lean` proves `Derived` to be
+closed under.  Answer: the resulting `(size,stride)` list and the overlap verdict on it.
+Op syntax = C09's (`perm 2,1,0`, `tr`, `mv a b`, `sl i:k r:s:e:t …`, `sa a s e`, `ix a i`,
+`spl a m`, `spr a m`, `ia k`, `ra k`, `sq`, `ma`). -/
+
+def parseItem (w : String) : Option SliceItem :=
+  match w.splitOn ":" with
+  | ["i", x] => x.toInt?.map SliceItem.index
+  | ["r", a, b, c] => do
+    let s ← a.toInt?
+    let e ← if b == "_" then some none else b.toInt?.map some
+    let t ← c.toInt?
+    pure (SliceItem.range ⟨s, e, t⟩)
+  | _ => none
+
+def applyOp (ws : List String) (v : View) : Option (Except Err View) :=
+  match ws with
+  | ["perm", p] => do pure (permuted v (← parseNatList "," p))
+  | ["tr"] => some (.ok (transposed v))
+  | ["mv", a, b] => do pure (moveAxis v (← a.toNat?) (← b.toNat?))
+  | "sl" :: items => do pure (trySlice v (← items.mapM parseItem))
+  | ["sa", a, b, c] => do pure (sliceAxis v (← a.toNat?) (← b.toNat?) (← c.toNat?))
+  | ["ix", a, b] => do pure (indexAxis v (← a.toNat?) (← b.toNat?))
+  | ["spl", a, m] => do pure (splitAt v (← a.toNat?) (← m.toNat?) false)
+  | ["spr", a, m] => do pure (splitAt v (← a.toNat?) (← m.toNat?) true)
+  | ["ia", k] => do pure (insertAxis v (← k.toNat?))
+  | ["ra", k] => do pure (removeAxis v (← k.toNat?))
+  | ["sq"] => some (.ok (squeezed v))
+  | ["ma"] => some (.ok (mergedAxes v))
+  | _ => none
+
+def runChain : List String → View → String
+  | [], v =>
+    let ds := joinWith " " (v.dims.map (fun d => s!"{d.1},{d.2}"))
+    s!"dims={ds} overlap={b01 (mayOverlap v.dims)} contig={b01 (isContiguous v.dims)}"
+  | op :: ops, v =>
+    match applyOp (words op) v with
+    | none => "bad-request"
+    | some (.error _) => "err"
+    | some (.ok v') => runChain ops v'
 
 def handle (line : String) : String :=
   match words line with
@@ -15,6 +58,14 @@ def handle (line : String) : String :=
     match ds.mapM parseDim with
     | some dims => s!"overlap={b01 (mayOverlap dims)} contig={b01 (isContiguous dims)}"
     | none => "bad-request"
+  | "dv" :: _ =>
+    match (line.drop 3).toString.splitOn " | " with
+    | sh :: ops =>
+      let w := sh.trimAscii.toString
+      match (if w == "-" then some [] else parseNatList "," w) with
+      | some shape => runChain ops ⟨0, numel shape, contigDims shape⟩
+      | none => "bad-request"
+    | [] => "bad-request"
   | _ => "bad-request"
 
 end RtenVerif.Driver.C08
